@@ -118,6 +118,30 @@ def handle (op : String) (j : Json) : Except String Json := do
           Spec.holdsC07 fc enc tag (text 0) (text 1) ports
         | _ => []
     pure (Json.mkObj [("model", model), ("failed", clauses failed)])
+  | "build.c06" =>
+    -- structural clauses evaluated on the implementation's file set (and on the model's, for the diff)
+    let r ← runBuild j
+    let impl := fieldD j "impl" Json.null
+    let cfgJ ← field j "cfg"
+    let shellName := Py.getBasename ((strField cfgJ "filename").toOption.getD []) ++ ((strField cfgJ "suffix").toOption.getD [])
+    let modelHeader := Py.getBasename ((strField cfgJ "filename").toOption.getD []) ++ L ".hh"
+    let clausesOf := fun (files : List Spec.CFile) =>
+      (Spec.holdsC06 files shellName modelHeader).map (fun (c, d) => c ++ ":" ++ String.ofList d) ++
+      ((files.drop 2).flatMap fun f => (Spec.missingStdHeaders files f).map
+          (fun (n, h) => "std-name-without-header:" ++ String.ofList f.name ++ ":" ++ n ++ ":<" ++ h ++ ">"))
+    let model := match r with
+      | .ok b => okJson (clauses (clausesOf (b.files.map fun f => { name := f.filename, contents := f.contents })))
+      | .error e => errJson e
+    let failed := if impl.isNull then [] else
+      match arrField (fieldD impl "ok" Json.null) "files" with
+      | .ok fs =>
+        let files : List Spec.CFile := fs.filterMap fun f =>
+          match (strField f "name", strField f "contents") with
+          | (.ok n, .ok c) => some { name := n, contents := c }
+          | _ => none
+        clausesOf files
+      | _ => []
+    pure (Json.mkObj [("model", model), ("failed", clauses failed)])
   | "build.trace" =>
     -- model prediction of the traces the compiled program prints for the given scripts
     let r ← runBuild j
